@@ -346,6 +346,20 @@ func dmsgOracle(t []string, out string) *hx.Violation {
 
 func genDmsg(g *hx.Gen) {
 	r := g.R
+	// count attack at every byte position of the zero-value encoding of each type (where all lists are
+	// empty, every list count is one of these bytes): a huge count, and 2^20, followed by nothing
+	for _, n := range codecNames() {
+		w := new(bytes.Buffer)
+		if err := codecTypes[n]().Serialize(w); err != nil {
+			continue
+		}
+		z := w.Bytes()
+		for i := 0; i < len(z) && i < 200; i++ {
+			for _, h := range [][]byte{{0xff, 0xff, 0xff, 0xff, 0xff, 0xff, 0xff, 0xff, 0x7f}, {0xfe, 0x00, 0x00, 0x10, 0x00}} {
+				g.Emit("dmsg %s %s", n, hx.Hex(append(append([]byte(nil), z[:i]...), h...)))
+			}
+		}
+	}
 	for _, n := range codecNames() {
 		for i := 0; i < g.N(6, 60); i++ {
 			m := codecTypes[n]()
